@@ -83,7 +83,7 @@ const (
 	progSynErr  = "\u09a6\u09c7\u0996\u09be\u0993 1;\n\u09a6\u09c7\u0996\u09be\u0993 ;\n"
 	progRunErr  = "\u09a6\u09c7\u0996\u09be\u0993 1;\n\u09a6\u09c7\u0996\u09be\u0993 x;\n\u09a6\u09c7\u0996\u09be\u0993 2;\n"
 	progRunErr2 = "\u09a7\u09b0\u09bf i = 0;\n\u09af\u09a4\u0995\u09cd\u09b7\u09a3 (i < 3) {\n  \u09a6\u09c7\u0996\u09be\u0993 i;\n  i = i + 1;\n  \u09a6\u09c7\u0996\u09be\u0993 1 / 0;\n}\n\u09a6\u09c7\u0996\u09be\u0993 9;\n"
-	progInput2  = "\u09a6\u09c7\u0996\u09be\u0993 \u0987\u09a8\u09aa\u09c1\u099f();\n\u09a6\u09c7\u0996\u09be\u0993 \u0987\u09a8\u09aa\u09c1\u099f(\"p> \");\n"
+	progInput2  = "\u09a6\u09c7\u0996\u09be\u0993 \u0987\u09a8\u09aa\u09c1\u099f();\n\u09a6\u09c7\u0996\u09be\u0993 \u0987\u09a8\u09aa\u09c1\u099f(\"50%> \");\n"
 )
 
 // VH_cli: command lines with 0-3 extra arguments and script names of n characters.
@@ -186,13 +186,13 @@ func VH_input(nlines int, finalNL int) {
 	out, errText, status := verifProcStdout(), verifProcStderr(), verifProcExit()
 	if nlines >= 2 {
 		// the program prints what it read: print writes the NFC form of the text
-		want := norm.NFC.String(strings.TrimSpace(lines[0])) + "\n" + "p> " + norm.NFC.String(strings.TrimSpace(lines[1])) + "\n"
+		want := norm.NFC.String(strings.TrimSpace(lines[0])) + "\n" + "50%> " + norm.NFC.String(strings.TrimSpace(lines[1])) + "\n"
 		verifAssert("each-read-consumes-exactly-the-next-line", out == want)
 		verifAssert("reads-succeed", status == 0 && errText == "")
 	} else {
 		verifAssert("reading-past-end-of-input-is-a-runtime-error", status == 70)
 		if nlines == 1 {
-			verifAssert("first-read-still-printed", out == norm.NFC.String(strings.TrimSpace(lines[0]))+"\n"+"p> ")
+			verifAssert("first-read-still-printed", out == norm.NFC.String(strings.TrimSpace(lines[0]))+"\n"+"50%> ")
 		}
 	}
 }
